@@ -30,6 +30,11 @@ var verifIndepQueries = []string{
 // series in the storage.
 func VerifH11p() {
 	qs := verifIndepQueries[sym.Choice("query", len(verifIndepQueries))]
+	// shapes whose mechanism another shape (or H11s) already exercises: thorough tier only
+	later := map[string]bool{`foo > bar`: true, `foo{a="x"} * on(a) foo`: true, `count(foo) by (b)`: true, `-foo`: true}
+	if sym.Tier(0, 1) == 0 && later[qs] {
+		sym.Stop()
+	}
 	data := verifData1()
 	if sym.Tier(0, 1) == 1 {
 		data = verifData(2)
